@@ -81,12 +81,12 @@ WHAT = {"F23": "value with whitespace / quote / backslash is re-tokenised by spl
         "F23b": "templated value rewritten by str.format braces or the bracket clean-up"}
 
 
-def gen_cases(ctx, n):
+def gen_cases(ctx, n, file_dir=None):
     rng = ctx.rng
     cases = [c for c in ctx.corpus() if "fields" in c]
     while len(cases) < n:
         c = sg.gen_definition(rng, max_fields=3, form="functional", pos_mode=rng.choice(["none", "dense"]),
-                              kinds=["str", "str", "path", "list", "multi", "bool", "int"])
+                              kinds=["str", "str", "path", "list", "multi", "bool", "int"], file_dir=file_dir)
         sg.gen_values(rng, c, nasty=0.6, braces=0.08, falsy=0.0, unset=0.1)
         if isinstance(c["append"], dict):
             c["append"] = []
@@ -104,11 +104,20 @@ def special(s):
 
 
 def run(ctx):
+    import shutil as _sh, tempfile as _tf
+    file_dir = _tf.mkdtemp(prefix="verif-c23-files-")
+    try:
+        return _run(ctx, file_dir)
+    finally:
+        _sh.rmtree(file_dir, ignore_errors=True)
+
+
+def _run(ctx, file_dir):
     import time
     t0 = time.time()
     rng = ctx.rng
-    n = ctx.budget(300, 4000)
-    cases = gen_cases(ctx, n)
+    n = ctx.budget(300, 2500)
+    cases = gen_cases(ctx, n, file_dir)
     metas, codes = sg.evaluate_argv(ctx, "c23", cases)
     t1 = time.time()
     dist = {"errors_ENoClosingQuote": 0, "errors_ENoEscaped": 0, "errors_EFormat": 0, "errors_other": 0,
@@ -158,7 +167,7 @@ def run(ctx):
     t2 = time.time()
 
     # ---- CPython shlex vs Base/Shlex.v
-    strings = sg.gen_shlex_strings(rng, ctx.budget(300, 5000)) + [s for c in cases[:100] for _, s in atoms_of(c)]
+    strings = sg.gen_shlex_strings(rng, ctx.budget(300, 3000)) + [s for c in cases[:100] for _, s in atoms_of(c)]
     nshlex, bad = sg.check_shlex(ctx, "c23shlex", strings)
     out.evaluations += nshlex
     out.extra["shlex_strings_compared_with_cpython"] = nshlex
@@ -170,7 +179,7 @@ def run(ctx):
     t3 = time.time()
 
     # ---- what a real child process receives (observation point check)
-    nchild = ctx.budget(8, 60)
+    nchild = ctx.budget(8, 40)
     tmp = tempfile.mkdtemp(prefix="verif-c23-")
     child_ok = child_bad = 0
     try:
